@@ -295,6 +295,21 @@ def random_child(arg):
         except Exception as e:
             o["call"] = "raise:%s:%s" % (type(e).__name__, str(e)[:200])
         out[nd["name"]] = o
+    # once more, callees first and with the argument their callers will pass (x + 1) before the callers' own: what a
+    # caller asks for is memoized already when it runs, and must be refused all the same if it is outside the closure
+    for x in (3, 2):
+        for i in reversed(progs.roots(prog)):
+            nd = prog["nodes"][i]
+            fn = getattr(sys.modules[progs.modname(prog, nd["mod"])], nd["name"])
+            try:
+                fn(x)
+                r = "ok"
+            except UndeclaredDependencyError:
+                r = "undeclared"
+            except Exception as e:
+                r = "raise:%s:%s" % (type(e).__name__, str(e)[:200])
+            if x == 2:
+                out[nd["name"]]["call_memoized_callees"] = r
     return out
 
 
@@ -347,6 +362,12 @@ def run_random(case, out, fail):
                 fail("a call outside the static closure is not refused" if want_call == "undeclared"
                      else "a call inside the static closure (or from an explicitly versioned caller) is refused or fails",
                      "program %d/%d %s(1): outcome %s, expected %s\n%s" % (case["seed"], case["idx"], nd["name"], g["call"], want_call, text))
+            out["obs"]["calls_judged_with_memoized_callees"] += 1
+            if g["call_memoized_callees"] != want_call:
+                fail("a call outside the static closure is not refused when the callee's result is memoized already" if want_call == "undeclared"
+                     else "a call inside the static closure (or from an explicitly versioned caller) is refused or fails",
+                     "program %d/%d %s(2) after every function had been called with 3: outcome %s, expected %s\n%s" % (
+                         case["seed"], case["idx"], nd["name"], g["call_memoized_callees"], want_call, text))
         if any(c["form"] == "hidden" for nd in nodes for c in nd["calls"]):
             out["nontrivial"].append("random:%d:%d" % (case["seed"], case["idx"]))
         out["sample"] = {"program": text.split("\n")[:30]}
